@@ -5,6 +5,80 @@ import os
 ROOT = os.path.dirname(os.path.abspath(__file__))
 
 CHECKS = {
+    "C01": {
+        "level": "Differential search: Hypothesis-driven constructive grammar generator (profile full) x optimizer "
+        "off/on x every rule and EOI as start rule x derived/mutated/random inputs x start positions; the "
+        "generated module is compared with the interpreter of the same Parser (tree incl. tags, or "
+        "furthest_pos), plus compile/import and generate-twice checks. Sampled, not exhaustive.",
+        "note": "Trusted: the harness' grammar printer (conservative pest v2 layout) and outcome normalisation. "
+        "Labels of expected/unexpected sets are not compared.",
+        "technique": "Hypothesis-generated grammars and inputs, differential oracle (interpreter vs generated "
+        "code), structural shrinking",
+        "ref": "DESIGN.md 4 C01",
+    },
+    "C03": {
+        "level": "Exhaustive enumeration of all two-rule grammars with a start expression of <= 4 (quick) / <= 5 "
+        "(thorough) nodes over 10 terminals and 11 operators x 34 inputs, plus Hypothesis-generated larger "
+        "grammars, against an independent reference PEG evaluator (success/failure and full tree).",
+        "note": "Trusted: the reference evaluator pestverif/refpeg.py (pure functional, ~300 lines, cross-checked "
+        "by running pest's own meta-grammar on the 15 bundled grammar files) and the well-formedness analysis.",
+        "technique": "exhaustive small-scope enumeration + Hypothesis generation against a reference-model "
+        "oracle",
+        "ref": "DESIGN.md 3, 4 C03",
+    },
+    "C04": {
+        "level": "Hypothesis-generated grammars with none/one/both trivia rules and all rule modifiers, inputs "
+        "with trivia injected at every position class, compared in all four execution modes with the "
+        "reference evaluator (outcome and full tree including trivia pairs and children of atomic rules).",
+        "note": "Trusted: the reference evaluator's reading of pest's skip/atomicity rules (DESIGN.md 3). Trivia "
+        "rules with atomicity modifiers or stack effects are unspecified and not generated.",
+        "technique": "Hypothesis generation against a reference-model oracle in four execution modes",
+        "ref": "DESIGN.md 3, 4 C04",
+    },
+    "C05": {
+        "level": "Hypothesis-generated stack grammars compared in four modes with a reference evaluator whose "
+        "stack is immutable (so every undo is correct by construction), plus an operation-level check of "
+        "(result, position, stack) for each of the seven operations on prepared parser states.",
+        "note": "Trusted: reference evaluator; PEEK[a..b] outside the stack is unspecified and discarded.",
+        "technique": "Hypothesis generation against a reference-model oracle + operation-level specification "
+        "check",
+        "ref": "DESIGN.md 3, 4 C05",
+    },
+    "C06": {
+        "level": "Validity predicates (the clauses of the statement) evaluated on the live Pairs of every "
+        "successful parse of generated grammars (four modes, all start rules, random start positions) and "
+        "of the 15 bundled grammars on corpus inputs and their mutations.",
+        "note": "Trusted: the predicates in pestverif/treecheck.py and the meta-grammar oracle that supplies rule "
+        "names/tags of bundled grammars.",
+        "technique": "Hypothesis generation + corpus mutation, validity-predicate oracle over the public API",
+        "ref": "DESIGN.md 4 C06",
+    },
+    "C07": {
+        "level": "Hypothesis-generated well-formed grammars, inputs forced through the uncommon paths (empty, "
+        "prefixes, start_pos = len), four modes: outcome must be Pairs or PestParsingError, step budget "
+        "decides termination, second call must give an equal result.",
+        "note": "Trusted: the constructive well-formedness guarantee of the generator (re-checked by an "
+        "independent analysis) and the sys.monitoring step budget.",
+        "technique": "Hypothesis generation, totality + determinism oracle with a counted step budget",
+        "ref": "DESIGN.md 4 C07",
+    },
+    "C13": {
+        "level": "Predicates on every PestParsingError raised for generated grammars and reporting.pest in four "
+        "modes, on multi-line / non-ASCII texts and non-zero start positions: position range, rule names, "
+        "rendering, line/column/source line against the closed form.",
+        "note": "Trusted: predicates in pestverif/errcheck.py; column base 0 or 1 both accepted.",
+        "technique": "Hypothesis generation, validity-predicate oracle on the live exception (closed-form "
+        "line/column)",
+        "ref": "DESIGN.md 4 C13",
+    },
+    "C16": {
+        "level": "Metamorphic search: generated SOI-free grammars, every k in 0..len for texts <= 12 characters, "
+        "four modes: parse at start_pos k vs parse of the suffix (shifted), and invariance under replacing "
+        "the prefix.",
+        "note": "Trusted: the shift relation itself; nothing else.",
+        "technique": "Hypothesis generation, metamorphic oracle (suffix shift, prefix replacement)",
+        "ref": "DESIGN.md 4 C16",
+    },
     "C09": {
         "level": "Exhaustive enumeration of all operation histories up to length 8/8/6 (quick) or 10/10/7 "
         "(thorough) for Stack / SnapshottingInt / ParserState against a full-copy reference model, plus "
